@@ -149,7 +149,14 @@ class CaseTimeout(BaseException):
     pass
 
 
+TIMED_OUT = [False]
+
+
 def _alarm(signum, frame):
+    # The exception may be swallowed by the code under test (an asyncio task stores any
+    # BaseException raised inside it), so the flag is what counts; re-arm to keep breaking loops.
+    TIMED_OUT[0] = True
+    signal.setitimer(signal.ITIMER_REAL, 2.0)
     raise CaseTimeout()
 
 
@@ -160,14 +167,26 @@ def _run_one(mod, known, stats, case):
     if use_alarm:
         old = signal.signal(signal.SIGALRM, _alarm)
         signal.setitimer(signal.ITIMER_REAL, limit)
+    TIMED_OUT[0] = False
     try:
-        res = mod.run_case(case)
+        try:
+            res = mod.run_case(case)
+        finally:
+            if use_alarm:
+                signal.setitimer(signal.ITIMER_REAL, 0)
     except CaseTimeout:
-        res = CaseResult([Violation({"kind": "hang"}, f"case did not finish within {limit:.0f}s")], False, ["hang"])
+        res = None
+    except Exception:
+        if not TIMED_OUT[0]:
+            raise
+        res = None  # fallout of the interrupted case
     finally:
         if use_alarm:
             signal.setitimer(signal.ITIMER_REAL, 0)
             signal.signal(signal.SIGALRM, old)
+    if res is None or TIMED_OUT[0]:
+        res = CaseResult([Violation({"kind": "hang"}, f"case did not finish within {limit:.0f}s "
+                                    "(a command or the worker pool's event loop never came back)")], False, ["hang"])
     stats.record(case, res)
     fresh = _classify(mod, known, stats, case, res)
     if fresh:
